@@ -240,7 +240,7 @@ def run(chk, replay=None):
         for tr in ("sgio", "iscsi"):
             dev = w.device(tr)
             objs = [cmds.klass("TestUnitReady")(dev.opcodes.TEST_UNIT_READY) for _ in range(3)]
-            for _ in range(50 if chk.quick else 2000):
+            for _ in range(50 if chk.quick else 20000):
                 cmd = rng.choice(objs)
                 st = rng.choice([0, 0, 2, 2, 2, 8, 24, 40, 48, 64, 4, rng.randint(0, 255)])
                 s = rng.choice(["none", "f1", "d2", "f3", "f1"]) if st == 2 else "none"
